@@ -2,7 +2,7 @@
    Level: fault enumeration on the library (every single-failure and fail-from position of generated scenarios);
    the theorems below are the part of the argument that lives in the slot allocator, for EVERY failure pattern. *)
 From Coq Require Import NArith List Bool.
-From AJ Require Import Model.Base Model.Pool Proofs.PoolProofs.
+From AJ Require Import Model.Base Model.Pool Proofs.PoolProofs Model.Collection Proofs.CollProofs.
 Local Open Scope N_scope.
 
 (* whatever the allocator answers, at whatever calls, the allocator's invariant holds: ids valid, live slots
@@ -34,6 +34,31 @@ Print Assumptions C05_failure_sets_overflowed.
 Theorem C05_clear_recovers : forall g s, fst (pstep g s PClear) = ps0 g.
 Proof. reflexivity. Qed.
 Print Assumptions C05_clear_recovers.
+
+(* at the level of one array / one object (Model/Collection.v): whichever allocator call fails — the pool table's,
+   the pool's, the key string's — a failed insertion leaves the chain exactly as it was, reports overflow, and the
+   state stays well formed; in particular an object never holds a key without its value *)
+Theorem C05_failed_add_leaves_array_unchanged : forall g s fails s' n, good_geom g -> WF g s ->
+  astep g s (AAdd fails) = (s', None, n) ->
+  elements g s' = elements g s /\ overflowed (a_ps s') = true /\ lv (a_ps s') = lv (a_ps s).
+Proof. exact add_fails_unchanged. Qed.
+Print Assumptions C05_failed_add_leaves_array_unchanged.
+
+Theorem C05_failed_member_add_leaves_object_unchanged : forall g s fails s' n, good_geom g -> WF g s ->
+  astep g s (OAdd fails) = (s', None, n) ->
+  elements g s' = elements g s /\ overflowed (a_ps s') = true.
+Proof. exact oadd_fails_unchanged. Qed.
+Print Assumptions C05_failed_member_add_leaves_object_unchanged.
+
+Theorem C05_no_member_without_value : forall g ops, good_geom g -> Forall object_op ops ->
+  WF g (fst (arun g ops)) /\ Nat.Even (length (elements g (fst (arun g ops)))).
+Proof. exact arun_wf_object. Qed.
+Print Assumptions C05_no_member_without_value.
+
+(* well-formedness survives every operation under every failure pattern *)
+Theorem C05_chain_invariant_step : forall g s o, good_geom g -> WF g s -> op_ok g s o -> WF g (fst (fst (astep g s o))).
+Proof. exact WF_step. Qed.
+Print Assumptions C05_chain_invariant_step.
 
 Example C05_example :   (* the pool's own allocation fails, then succeeds: ids restart cleanly *)
   let g := {| id_bits := 8; pool_cap := 4; inline_pools := 1 |} in
